@@ -578,7 +578,52 @@ func (u *userBothCons) DoesVehicleHaveViolations(v nextroute.SolutionVehicle) bo
 // become ONE constraint object with two exact checks.
 var triangleFlag bool
 
+// userSolutionCons: a user constraint with a per-SOLUTION exact check (C19, third level) and an estimate that always
+// answers "not violated".  balance k: the numbers of stops of any two vehicles differ by at most k; maxplanned k: at most k
+// stops are on routes altogether.  Routes are walked (not read from cached positions).
+type userSolutionCons struct {
+	kind string
+	k    int
+	id   int
+}
+
+func (u *userSolutionCons) EstimateIsViolated(nextroute.Move) (bool, nextroute.StopPositionsHint) {
+	return false, nextroute.NoPositionsHint()
+}
+func (u *userSolutionCons) String() string { return fmt.Sprintf("user_solution_%d", u.id) }
+func (u *userSolutionCons) DoesSolutionHaveViolations(s nextroute.Solution) bool {
+	mx, mn, total := 0, -1, 0
+	for _, v := range s.Vehicles() {
+		n := len(v.SolutionStops()) - 2
+		total += n
+		if n > mx {
+			mx = n
+		}
+		if mn < 0 || n < mn {
+			mn = n
+		}
+	}
+	if mn < 0 {
+		mn = 0
+	}
+	if u.kind == "balance" {
+		return mx-mn > u.k
+	}
+	return total > u.k
+}
+
+var userSolDefs [][]string
+
 func registerUsers(model nextroute.Model, c *engineCtx) {
+	defer func() { userSolDefs = nil }()
+	defer func() {
+		for i, fs := range userSolDefs {
+			k, _ := strconv.Atoi(fs[2])
+			if err := model.AddConstraint(&userSolutionCons{kind: fs[1], k: k, id: i}); err != nil {
+				panic(err)
+			}
+		}
+	}()
 	mk := func(i int, fsu []string) userCons {
 		mx, _ := strconv.ParseFloat(fsu[2], 64)
 		base := userCons{ctx: c, field: fsu[1], max: mx, vehLevel: fsu[3] == "1", temporal: fsu[4] == "1", id: i}
@@ -663,6 +708,8 @@ func runEngine(b block) {
 			triangleFlag = len(fs) > 1 && fs[1] == "1"
 		case "user":
 			userDefs = append(userDefs, fs)
+		case "usol":
+			userSolDefs = append(userSolDefs, fs)
 		case "build":
 			model, err := factory.NewModel(input, opts)
 			if err != nil {
